@@ -370,6 +370,9 @@ func (c *Ctx) isBufEmptyTest(info *types.Info, defs defMap, e ast.Expr, truth bo
 	return samePredOnRange(p, func(v int64) bool { return v == 0 }, 0, 4)
 }
 
+// eofGuardRule: rule id under which checkEOFGuards records (C03 reuses it as R03e).
+var eofGuardRule = "R01c"
+
 func (c *Ctx) checkEOFGuards(info *types.Info, fd *ast.FuncDecl) {
 	defs := localDefs(info, fd.Body)
 	n := 0
@@ -384,7 +387,7 @@ func (c *Ctx) checkEOFGuards(info *types.Info, fd *ast.FuncDecl) {
 		n++
 		key := "Read:eof#" + itoa(n)
 		if inDoneArm(info, stack) {
-			c.OK("R01c", key, rs.Pos(), "EOF in the cancelled-context arm")
+			c.OK(eofGuardRule, key, rs.Pos(), "EOF in the cancelled-context arm")
 			return true
 		}
 		facts := factsOf(guardsAt(info, stack))
@@ -401,13 +404,13 @@ func (c *Ctx) checkEOFGuards(info *types.Info, fd *ast.FuncDecl) {
 		// statements lie between one Lock and the following Unlock.
 		same := c.sameCriticalSection(info, fd, defs, facts)
 		if empty && closed && same {
-			c.OK("R01c", key, rs.Pos(), "EOF guarded by len(buffer)==0 && dependents<1 read in one critical section")
+			c.OK(eofGuardRule, key, rs.Pos(), "EOF guarded by len(buffer)==0 && dependents<1 read in one critical section")
 		} else {
-			c.Viol("R01c", key, rs.Pos(), "EOF returned without the full guard (buffer-empty=%v writers-closed=%v same-critical-section=%v): a reader could see end-of-stream while data or writers remain", empty, closed, same)
+			c.Viol(eofGuardRule, key, rs.Pos(), "EOF returned without the full guard (buffer-empty=%v writers-closed=%v same-critical-section=%v): a reader could see end-of-stream while data or writers remain", empty, closed, same)
 		}
 		return true
 	})
-	c.MinCount("R01c", "EOF returns in Read", n, 2)
+	c.MinCount(eofGuardRule, "EOF returns in Read", n, 2)
 }
 
 // sameCriticalSection: all single-definition locals that the facts mention and
